@@ -748,10 +748,14 @@ impl Vm {
         //
         if expr.is_vector() {
             let vector = expr.as_vector().unwrap();
+            if vector.is_empty() {
+                return self.compile_quote(lambda, expr);
+            }
 
-            let new_vector = self.heap.put(VCell::vector(vec![]));
+            // Every evaluation instantiates the template anew: the first VPUSH finds this
+            // placeholder in place of a vector and allocates one.
             lambda.emit(OpCode::MovImmediate);
-            lambda.emit(new_vector);
+            lambda.emit(VCell::Undefined);
             lambda.emit(VCell::Acc);
 
             for it in vector {
